@@ -18,7 +18,7 @@ def run(ctx, prog, facts, tier):
     rules_panic.check_parsers(ctx, prog, ['action::Action', 'square::Square', 'piece::Piece', 'direction::Direction'], 'C16')
     rules_text.check_piece_direction_tables(ctx, prog)
     rules_text.check_action_delegation(ctx, prog)
-    ctx.floor('C16 parser panic sites', ctx.analysed.get('panic_sites_parser', 0), 5)
+    ctx.floor('C16 parser panic site kinds (function, construct)', ctx.analysed.get('panic_site_kinds_parser', 0), 3)
     ctx.exhaustive = True
     ctx.assumptions += [
         'NOT decided: that Square::new / column_char / row / index / as_bit_board / from_bit_board are mutually inverse on all 64 '
